@@ -324,7 +324,7 @@ def _lazy_part(chk, b):
   # the third: falsy and truthy literals of the three types, every literal also as a lazy value of its own (trace(0), trace(False), ...)
   falsy = dict(Depth=1, MaxSteps=2, Lits={0, 1}, LitKinds={'int', 'bool', 'float'}, WithKind=True)
   for label, consts, defs, traced in (('', b['lazy'], dict(mc_Lits='{-1, -2}'), False),      # hash(-1) == hash(-2) in CPython: colliding keys
-                                      ('/typed literals', typed, None, False),
+                                      ('/typed literals', typed, None, True),
                                       ('/falsy and traced literals', falsy, None, True)):
     _lazy_instance(chk, label, consts, defs, traced)
 
